@@ -125,7 +125,7 @@ def generate(run_seed, tier):
     if kind == "F":
         model = rng.choice(FREQ_MODELS)
         if model == "ImpartialCulture":
-            n = rng.randint(2, 4)
+            n = rng.randint(2, 4) if rng.random() < 0.85 else 10  # 10 candidates: 10! rankings, judged on marginals
             return {"kind": "F", "model": model, "gen": model, "candidates": ["c%d" % i for i in range(n)], "N": N1[tier], "n1": N1[tier], "by_bloc": False, "seed": seed}
         case = gen_params(rng, model)
         case.update(kind="F", model=model, gen=model, N=N1[tier], n1=N1[tier], by_bloc=True, seed=seed)
@@ -173,6 +173,15 @@ def cells_and_law(case, bloc, profile):
     model = case["model"]
     tests = []
     if model == "ImpartialCulture":
+        n_c = len(case["candidates"])
+        if n_c > 6:
+            # too many rankings to enumerate: the (first, second) marginal is uniform over ordered pairs
+            counts = {}
+            for b in profile.ballots:
+                r = tuple(next(iter(s)) for s in b.ranking)
+                counts[r[:2]] = counts.get(r[:2], 0) + int(b.weight)
+            pairs = list(it.permutations(case["candidates"], 2))
+            return [("IC-first-two", counts, sum(counts.values()), {p: 1.0 / len(pairs) for p in pairs})]
         counts = {}
         for b in profile.ballots:
             k = tuple(next(iter(s)) for s in b.ranking)
@@ -409,7 +418,8 @@ def kernel_slate_bt(case, bloc, g):
     iv = case["intervals"][bloc]
     n_own = sum(1 for v in iv[bloc].values() if v > 0)
     n_opp = sum(1 for v in iv[opp].values() if v > 0)
-    seed_type = tuple([b for b in blocs for _ in range(n_own if b == bloc else n_opp)])
+    # the chain starts from the generator's own seed type: slates in the order of g.blocs (= key order of bloc_voter_prop)
+    seed_type = tuple([b for b in g.blocs for _ in range(n_own if b == bloc else n_opp)])
     states = sorted(set(it.permutations(seed_type)))
     idx = {s: i for i, s in enumerate(states)}
     n = len(seed_type)
